@@ -5,6 +5,7 @@ import (
 	"fmt"
 	"io"
 	"net"
+	"time"
 
 	"nhooyr.io/websocket"
 	"verif/engine/explore"
@@ -56,7 +57,7 @@ func c06Setup(prm c06Params) func(c *fw.Ctx, name string) explore.Setup {
 				conn := mkConn(st.p, k)
 				bg := vctx.Background()
 				// the peer echoes the Close frame it sees with the same payload
-				if prm.Mode != "orders" && prm.Mode != "orders-closeread" {
+				if prm.Mode != "orders" && prm.Mode != "orders-closeread" && prm.Mode != "simultaneous" {
 					w.GoHarness("peer", false, c06Peer(st, k, prm))
 				}
 				_ = func() {
@@ -93,8 +94,29 @@ func c06Setup(prm c06Params) func(c *fw.Ctx, name string) explore.Setup {
 				case "echo-closeread":
 					conn.CloseRead(bg)
 				}
-				if prm.Pinger {
+				if prm.Pinger && prm.Mode != "orders-closeread" {
 					w.GoHarness("pinger", false, func() { conn.Ping(bg) })
+				}
+				if prm.Mode == "simultaneous" {
+					// both ends close at the same time: the peer sends its own Close(4000) without
+					// waiting for ours; a reader (or CloseRead) is reading; the local Close runs
+					if prm.PeerEOF {
+						conn.CloseRead(bg)
+					} else {
+						w.GoHarness("reader", false, func() {
+							for {
+								if _, _, err := conn.Read(bg); err != nil {
+									return
+								}
+							}
+						})
+					}
+					w.GoHarness("peer-closer", false, func() { st.p.Send(peerClose(k, 4000, "bye")) })
+					w.GoHarness("closer", true, func() {
+						st.closeErr = conn.Close(websocket.StatusNormalClosure, "local")
+						st.closed = true
+					})
+					return
 				}
 				if prm.Mode == "orders-closeread" {
 					// the connection is closed (by Close or CloseNow), CloseRead is called on it
@@ -114,6 +136,19 @@ func c06Setup(prm c06Params) func(c *fw.Ctx, name string) explore.Setup {
 					first := call("CloseNow", func() error { return conn.CloseNow() })
 					if prm.PeerEOF {
 						first = call("Close", func() error { return conn.Close(websocket.StatusNormalClosure, "") })
+					}
+					if prm.Pinger {
+						// the connection was closed underneath the application first: the peer's
+						// Close frame was read (variant with PeerEOF: a read context expired)
+						if prm.PeerEOF {
+							rctx, cancel := vctx.WithTimeout(bg, time.Second)
+							conn.Read(rctx)
+							cancel()
+						} else {
+							st.p.Send(peerClose(k, 1001, "going"))
+							conn.Read(bg)
+						}
+						first = call("CloseNow", func() error { return conn.CloseNow() })
 					}
 					lateClose := call("Close-after-CloseRead", func() error { return conn.Close(websocket.StatusNormalClosure, "") })
 					lateCloseNow := call("CloseNow-after-CloseRead", func() error { return conn.CloseNow() })
@@ -212,6 +247,14 @@ func c06Oracle(c *fw.Ctx, w *vs.World, name string, prm c06Params, st *c06State)
 		c.OutcomeStr(name + "|stuck") // termination is C09's subject
 		return
 	}
+	if prm.Mode == "simultaneous" {
+		_, sent := firstClose(st.p.Out)
+		c.OutcomeStr(fmt.Sprintf("%s|sent=%v|err=%v", name, sent, st.closeErr != nil))
+		if st.closed && !sent {
+			violate(c, w, name, "C06/no-close-frame-sent/simultaneous/"+prm.K.String(), fmt.Sprintf("the peer closed with 4000 while the local Close(1000) was running; the connection was read and writable, yet no Close frame at all was sent (neither the local one nor an echo); Close returned %v", st.closeErr))
+		}
+		return
+	}
 	if prm.Mode == "orders" || prm.Mode == "orders-closeread" {
 		out := ""
 		for _, cl := range st.calls {
@@ -269,10 +312,17 @@ func c06Scenarios(tier string) []scenario {
 			prm := c06Params{Name: "echo-closeread-ping" + sfx, K: k, Mode: "echo-closeread", PeerEOF: eof, Pinger: true}
 			scs = append(scs, scenario{Name: prm.Name + "/" + k.String(), Cfg: tierCfg(tier, P(1), P(2)), Setup: c06Setup(prm)})
 		}
+		for _, cr := range []bool{false, true} {
+			prm := c06Params{Name: fmt.Sprintf("simultaneous-closeread=%v", cr), K: k, Mode: "simultaneous", PeerEOF: cr}
+			scs = append(scs, scenario{Name: prm.Name + "/" + k.String(), Cfg: tierCfg(tier, P(2), P(-1)), Setup: c06Setup(prm)})
+		}
 		prm := c06Params{Name: "orders", K: k, Mode: "orders"}
 		scs = append(scs, scenario{Name: prm.Name + "/" + k.String(), Cfg: tierCfg(tier, P(1), P(2)), Setup: c06Setup(prm)})
 		for _, viaClose := range []bool{false, true} {
 			prm := c06Params{Name: fmt.Sprintf("orders-closeread-%v", viaClose), K: k, Mode: "orders-closeread", PeerEOF: viaClose}
+			scs = append(scs, scenario{Name: prm.Name + "/" + k.String(), Cfg: tierCfg(tier, P(2), P(-1)), Setup: c06Setup(prm)})
+			// closed underneath (peer Close read / read context expired), then CloseNow, CloseRead, Close, CloseNow
+			prm = c06Params{Name: fmt.Sprintf("orders-closed-underneath-%v", viaClose), K: k, Mode: "orders-closeread", PeerEOF: viaClose, Pinger: true}
 			scs = append(scs, scenario{Name: prm.Name + "/" + k.String(), Cfg: tierCfg(tier, P(2), P(-1)), Setup: c06Setup(prm)})
 		}
 	}
